@@ -105,7 +105,7 @@ Print Assumptions C07_source_recording_is_model.
 
 (** * Non-vacuity: failure two calls deep, both callers swallow / retry *)
 Definition S (nm : string) (b : body) (inn : dict) (sw : val) (rt : option rcfg) (oe : option val) : step :=
-  mkstep nm b (Some inn) None None rt (VBool true) (VBool false) sw oe (Some (3, 5)%Z).
+  mkstep nm b (Some inn) None None rt (VBool true) (VBool false) sw oe (Some (3, 5)%Z) None.
 Definition lib7 : library :=
   [("main", [("steps", Some [
        S "pypyr.steps.call" BCall [(VStr "call", VStr "g1")] (VBool true)
